@@ -985,7 +985,7 @@ class CircuitSerializer(serializer.Serializer):
                 p = arg_func_langs.float_arg_from_proto(
                     operation_proto.noisechannel.depolarizingchannel.probability
                 )
-                if not isinstance(p, float):
+                if not isinstance(p, (int, float)):
                     raise ValueError(
                         f"Depolarizing noise probability {p} cannot be symbol or None"
                     )  # pragma: nocover
@@ -994,7 +994,7 @@ class CircuitSerializer(serializer.Serializer):
                     raise ValueError(
                         f"Depolarizing noise gate must have positive num_qubits: {num_qubits}"
                     )  # pragma: nocover
-                op = cirq.DepolarizingChannel(p=p, n_qubits=num_qubits)(*qubits)
+                op = cirq.DepolarizingChannel(p=float(p), n_qubits=num_qubits)(*qubits)
             elif which_channel_type == 'randomgatechannel':
                 p = arg_func_langs.float_arg_from_proto(
                     operation_proto.noisechannel.randomgatechannel.probability
